@@ -256,8 +256,15 @@ int main() {
       }
     } catch (const std::exception& e) {
       ret = std::string("EXC");
+    } catch (const char* m) {
+      ret = std::string("EXC");
     }
-    vh::emit("r=" + ret + "|" + dump(*st, callD, callN));
+    std::string d;
+    // GUDHI_DEBUG is on (no NDEBUG): internal GUDHI_CHECKs throw; they are reported, not hidden
+    try { d = dump(*st, callD, callN); }
+    catch (const std::exception& e) { d = std::string("EXC-IN-OBSERVER=") + e.what(); }
+    catch (const char* m) { d = std::string("EXC-IN-OBSERVER=") + m; }
+    vh::emit("r=" + ret + "|" + d);
   }
   vh::flush();
   return 0;
